@@ -239,6 +239,9 @@ func (c *crawlGen) asset(host, owner string, level int, maxRetry int, seencheck 
 		u := c.shared[c.N(len(c.shared))]
 		if c.reliable {
 			c.sharedR[u].Expect = MustEnd
+			if c.sharedR[u].Tags["needed-by"] == "" {
+				c.sharedR[u].Tags["needed-by"] = owner // the expectation holds as long as this seed is part of the crawl
+			}
 		}
 		return `<img src="` + u + `">`
 	}
@@ -590,7 +593,8 @@ func GenCrawl(t *Tape, o CrawlOpts) *Scenario {
 					n = 4 + c.N(5) // an outage: longer than any single back-off or client timeout
 				}
 				for i := 0; i < n; i++ {
-					plan.Faults[kind] = append(plan.Faults[kind], c.Pick("", "500", "reset-before", "reset-after", "timeout", "500"))
+					f := c.Pick("", "500", "reset-before", "reset-after", "timeout", "500")
+					plan.Faults[kind] = append(plan.Faults[kind], f)
 				}
 			}
 		}
